@@ -22,7 +22,7 @@ VARIABLES att, param, hS, hR, pend
 
 cvars == <<att, param, hS, hR, pend>>
 Threads == 0..3
-Idle == [st |-> "idle", a |-> "-", r |-> "-", conc |-> FALSE]
+Idle == [st |-> "idle", a |-> "-", r |-> "-", conc |-> FALSE, had |-> FALSE]
 Transient == {"IsBeingCleanedUp", "InitializationNotYetFinalized"}
 
 CInit == att = {} /\ param = 0 /\ hS = FALSE /\ hR = FALSE /\ pend = [t \in Threads |-> Idle]
@@ -32,12 +32,19 @@ RoleOf(a) == IF a \in {"S", "Sx", "s", "as", "fs"} THEN "S" ELSE "R"
 ParamOf(a) == IF a \in {"Sx", "Rx"} THEN 3 ELSE 2
 OthersPending(t) == \E u \in Threads : u # t /\ pend[u].st # "idle"
 
+\* The test keeps ONE sender handle and ONE receiver handle in slots shared by its threads; a detach
+\* ("s", "r", "as", "ar") takes the handle out of its slot when it is CALLED (`had` remembers whether
+\* there was one), so a concurrent second detach of that role finds the slot empty.
 Call(t, a) ==
     /\ pend[t].st = "idle"
-    /\ pend' = [u \in Threads |->
-                  IF u = t THEN [st |-> "called", a |-> a, r |-> "-", conc |-> OthersPending(t)]
-                  ELSE IF pend[u].st # "idle" THEN [pend[u] EXCEPT !.conc = TRUE] ELSE pend[u]]
-    /\ UNCHANGED <<att, param, hS, hR>>
+    /\ LET takes == a \in {"s", "r", "as", "ar"}
+           had == IF ~takes THEN FALSE ELSE IF RoleOf(a) = "S" THEN hS ELSE hR IN
+       /\ pend' = [u \in Threads |->
+                     IF u = t THEN [st |-> "called", a |-> a, r |-> "-", conc |-> OthersPending(t), had |-> had]
+                     ELSE IF pend[u].st # "idle" THEN [pend[u] EXCEPT !.conc = TRUE] ELSE pend[u]]
+       /\ hS' = IF takes /\ RoleOf(a) = "S" THEN FALSE ELSE hS
+       /\ hR' = IF takes /\ RoleOf(a) = "R" THEN FALSE ELSE hR
+    /\ UNCHANGED <<att, param>>
 
 Done(t, r) == pend' = [pend EXCEPT ![t].st = "done", ![t].r = r]
 
@@ -60,15 +67,15 @@ Lin(t) ==
                  /\ \E e \in Transient : Done(t, e)
                  /\ UNCHANGED <<att, param>>
          [] a \in {"s", "r"} ->       \* orderly detach of my handle (result "none": no handle, no-op)
-              \/ /\ (IF role = "S" THEN hS ELSE hR)
+              \/ /\ pend[t].had
                  /\ att' = att \ {role}
                  /\ param' = IF att \ {role} = {} THEN 0 ELSE param
                  /\ Done(t, "ok")
-              \/ /\ ~(IF role = "S" THEN hS ELSE hR)
+              \/ /\ ~pend[t].had
                  /\ Done(t, "none")
                  /\ UNCHANGED <<att, param>>
          [] a \in {"as", "ar"} ->     \* the handle is leaked: the role stays attached
-              /\ Done(t, IF (IF role = "S" THEN hS ELSE hR) THEN "ok" ELSE "none")
+              /\ Done(t, IF pend[t].had THEN "ok" ELSE "none")
               /\ UNCHANGED <<att, param>>
          [] a \in {"fs", "fr"} ->     \* forced removal on behalf of a dead peer
               \/ /\ att # {}
@@ -83,10 +90,8 @@ Lin(t) ==
 Ret(t, a, r) ==
     /\ pend[t].st = "done" /\ pend[t].a = a /\ pend[t].r = r
     /\ pend' = [pend EXCEPT ![t] = Idle]
-    /\ hS' = IF a \in {"S", "Sx"} /\ r = "ok" THEN TRUE
-             ELSE IF a \in {"s", "as"} /\ r = "ok" THEN FALSE ELSE hS
-    /\ hR' = IF a \in {"R", "Rx"} /\ r = "ok" THEN TRUE
-             ELSE IF a \in {"r", "ar"} /\ r = "ok" THEN FALSE ELSE hR
+    /\ hS' = IF a \in {"S", "Sx"} /\ r = "ok" THEN TRUE ELSE hS
+    /\ hR' = IF a \in {"R", "Rx"} /\ r = "ok" THEN TRUE ELSE hR
     /\ UNCHANGED <<att, param>>
 
 \* quiescent observation: does_exist, is_connected of the live handles (-1 = no handle)
